@@ -3,6 +3,7 @@ import Dnp3.Gen.CrcTable
 import Dnp3.Model.LinkReader
 import Dnp3.Proofs.LinkParser
 import Dnp3.Proofs.LinkReader
+import Dnp3.Proofs.CrcHd
 /-!
 # C06 — Only intact link frames are delivered, and every frame sent is recovered
 
@@ -82,6 +83,37 @@ theorem reader_never_zero_read (r : Reader) (avail rest : List Nat) (st' : PStat
 /-- every legal fragment size gives a read buffer that can hold a whole frame plus one octet -/
 theorem read_buffer_holds_a_frame (frag : Nat) : 293 ≤ readBufferSize frag :=
   Dnp3.readBufferSize_ge frag
+
+/-- the table-driven CRC of `crc.rs` is the bit-serial CRC-16/DNP on every octet string -/
+theorem crc_table_computes_dnp (acc : Nat) (bs : List Nat) (hb : ∀ b ∈ bs, b < 256) :
+    crcIncT acc bs = crcIncS acc bs :=
+  Dnp3.Proofs.Crc.crcIncT_eq_serial acc bs hb
+
+/-- **error detection, data blocks**: a block of up to 16 data octets followed by its CRC, hit by
+    ANY error pattern of weight 1, 2 or 3 (anywhere in data or CRC), fails the parser's block
+    test (Hamming distance ≥ 4 of the code defined by the table in `crc.rs`) -/
+theorem crc_detects_le3 (d : List Nat) (hd : d.length ≤ 16) (hb : ∀ b ∈ d, b < 256)
+    (e : List Nat) (he : e.length = d.length + 2) (heb : ∀ b ∈ e, b < 256)
+    (hw : 1 ≤ Dnp3.Proofs.Crc.weight e ∧ Dnp3.Proofs.Crc.weight e ≤ 3) :
+    ¬ Dnp3.Proofs.Crc.blockValid (List.zipWith (· ^^^ ·) (Dnp3.Proofs.Crc.blockImage d) e) :=
+  Dnp3.Proofs.Crc.crc_detects_le3 d hd hb e he heb hw
+
+/-- … stated on the parser's own function: `checkBody` returns `BadBodyCrc` -/
+theorem body_block_rejected_le3 (fuel : Nat) (d : List Nat) (hd1 : 1 ≤ d.length) (hd : d.length ≤ 16)
+    (hb : ∀ b ∈ d, b < 256) (e : List Nat) (he : e.length = d.length + 2) (heb : ∀ b ∈ e, b < 256)
+    (hw : 1 ≤ Dnp3.Proofs.Crc.weight e ∧ Dnp3.Proofs.Crc.weight e ≤ 3) :
+    checkBody (fuel + 1) (List.zipWith (· ^^^ ·) (Dnp3.Proofs.Crc.blockImage d) e) = .error .bodyCrc :=
+  Dnp3.Proofs.Crc.checkBody_rejects_le3 fuel d hd1 hd hb e he heb hw
+
+/-- **error detection, header block**: the ten header octets `05 64 LEN CTRL DST SRC CRC` hit by
+    any error pattern of weight 1..3 make the parser return an error (bad start octet, bad
+    length or bad header CRC) — never a header -/
+theorem header_rejected_le3 (hf : List Nat) (hlen : hf.length = 6) (hb : ∀ b ∈ hf, b < 256)
+    (e : List Nat) (he : e.length = 10) (heb : ∀ b ∈ e, b < 256)
+    (hw : 1 ≤ Dnp3.Proofs.Crc.weight e ∧ Dnp3.Proofs.Crc.weight e ≤ 3) (rest : List Nat) :
+    ∃ err, (parseSync1 (List.zipWith (· ^^^ ·) ([0x05, 0x64] ++ hf ++ le16 (calcCrc0564 hf)) e
+      ++ rest)).2.2 = .error err :=
+  Dnp3.Proofs.Crc.header_parse_rejects_le3 hf hlen hb e he heb hw rest
 
 /-- known finding D10 (witness, decided by evaluation of the model): in discard mode `05 64`
     delivered in an earlier read than a valid frame makes the frame disappear, while the same
